@@ -227,4 +227,71 @@ theorem scan_correct (es : List Entry) (hl : NamesOk es) (hs : Sorted es)
       apply sorted_key_unique hl hs h1' hmem
       simp only [Entry.key, h2'.1, h2'.2, h1, h2]
 
+/-! ### probes that contain a slash (outside the property's domain) -/
+
+/-- the comparison looks at ONE byte after the common prefix: against slash-free entry names a probe
+`q ++ "/" ++ rest` (any `rest`, file or directory) compares exactly like the directory probe `q` -/
+theorem cmpRec_slash_probe (n1 : Bytes) (t1 : Bool) (q rest : Bytes) (d : Bool)
+    (h1 : SlashFree n1) (hq : SlashFree q) :
+    cmpRec n1 t1 (q ++ 47 :: rest) d = cmpRec n1 t1 q true := by
+  induction n1 generalizing q with
+  | nil =>
+    cases q with
+    | nil => simp [cmpRec, treeByte]
+    | cons b bs => simp [cmpRec]
+  | cons a as ih =>
+    have ha : a ≠ 47 := h1 a (by simp)
+    cases q with
+    | nil =>
+      simp only [List.nil_append, cmpRec, treeByte, if_true, cmpOptByte]
+      by_cases hlt : a < 47
+      · simp [hlt]
+      · by_cases hgt : (47 : UInt8) < a
+        · simp [hlt, hgt]
+        · exact absurd (u8_eq_of_not_lt hlt hgt) ha
+    | cons b bs =>
+      simp only [List.cons_append, cmpRec]
+      rw [ih bs h1.tail hq.tail]
+
+theorem searchLoop_congr {α : Type} (f g : α → Ordering) (l : List α) (h : ∀ e ∈ l, f e = g e) :
+    ∀ (fuel base size : Nat), searchLoop f l fuel base size = searchLoop g l fuel base size := by
+  intro fuel
+  induction fuel with
+  | zero => intro base size; rfl
+  | succ fuel ih =>
+    intro base size
+    unfold searchLoop
+    by_cases hs : size > 1
+    · simp only [hs, if_true]
+      cases hm : l[base + size / 2]? with
+      | none => rfl
+      | some e =>
+        simp only
+        have he : e ∈ l := List.mem_of_getElem? hm
+        rw [h e he, ih]
+    · simp only [hs, if_false]
+
+theorem binarySearchBy_congr {α : Type} (f g : α → Ordering) (l : List α) (h : ∀ e ∈ l, f e = g e) :
+    binarySearchBy l f = binarySearchBy l g := by
+  unfold binarySearchBy
+  rw [searchLoop_congr f g l h]
+  split
+  · rfl
+  · cases searchLoop g l l.length 0 l.length with
+    | none => rfl
+    | some base =>
+      simp only
+      cases hb : l[base]? with
+      | none => rfl
+      | some e =>
+        simp only
+        rw [h e (List.mem_of_getElem? hb)]
+
+theorem bisectEntry_slash_probe (es : List Entry) (hl : NamesOk es) (q rest : Bytes) (d : Bool)
+    (hq : SlashFree q) : bisectEntry es (q ++ 47 :: rest) d = bisectEntry es q true := by
+  unfold bisectEntry
+  rw [binarySearchBy_congr _ (fun e => cmpNames e.name e.isTree q true) es]
+  intro e he
+  rw [cmpNames_eq_rec, cmpNames_eq_rec, cmpRec_slash_probe _ _ _ _ _ (hl e he) hq]
+
 end GixModel.Tree
